@@ -5,6 +5,7 @@ apertures, aperture spacing, flux-vs-aperture shape, distance-range class,
 log-distance step, package format / load mode, A_V range, angular apertures),
 full product over flag vectors x photometry sets inside each configuration.
 """
+import json
 import math
 
 import numpy as np
@@ -126,7 +127,7 @@ def run_case(ctx, case, rec, d):
     md = fc.build_package(d, 'pkg', spec)
     cfg_key = tuple(sorted((k, str(v)) for k, v in case.items()))
     # the form in which the A_V range is handed over is not an axis of its own: it rotates with the configuration
-    case = dict(case, avform=['list', 'int', 'tuple', 'intarray'][sum(map(ord, repr(cfg_key))) % 4])
+    case = dict(case, avform=['list', 'int', 'tuple', 'intarray'][sum(map(ord, json.dumps(case, sort_keys=True))) % 4])       # (json: the same for a replayed case)
     try:
         fitter = fc.make_fitter(md, BANDS, 'power', (avlo, avhi), distance_range_kpc=(dmin, dmax), theta=theta, memmap=memmap, by_wavelength=bywav, dunit=case.get('dunit', 'kpc'), tunit=case.get('tunit', 'arcsec'), as_tuple=(case.get('_deviations', 0) % 2 == 1), av_form=case.get('avform', 'list'))
     except Exception as e:
